@@ -4,6 +4,7 @@ Exhaustive over (n examples, batch_size 1..n+3, 0..3 extra args, output kind, mo
 model is an exact-integer probe that records, for every forward call, its training flag, the grad
 mode and the ids of the rows it receives in X and in every arg.
 """
+import collections
 import copy
 
 import numpy
@@ -30,11 +31,30 @@ def shards(tier, seed):
     nmax = 12 if tier == "quick" else 40
     out = []
     for mk in ("affine", "bn_dropout", "paramfree"):
-        for ok in ("tensor", "tuple2", "list3"):
+        for ok in ("tensor", "tuple2", "list3", "named2"):
             for lo in range(1, nmax + 1, 10):
                 out.append(dict(name="%s/%s/n%d-%d" % (mk, ok, lo, min(lo + 9, nmax)), model=mk, out=ok,
                                 ns=list(range(lo, min(lo + 9, nmax) + 1)), weight=lo * lo))
     return out
+
+
+Heads = collections.namedtuple("Heads", ["profile", "counts"])
+
+
+def _map_out(o, f):
+    if isinstance(o, torch.Tensor):
+        return f(o)
+    if hasattr(o, "_fields"):
+        return type(o)(*[f(t) for t in o])
+    return type(o)(f(t) for t in o)
+
+
+def add_root_hooks(model):
+    """User hooks on the top-level module: model(x) runs them, so 'the concatenation of model(X[i], ...)' includes them."""
+    model.register_forward_pre_hook(lambda m, inp: (inp[0] * 3,) + tuple(inp[1:]))
+    model.register_forward_hook(lambda m, inp, out: _map_out(out, lambda t: t * 2 + 1))
+    model.hooked = True
+    return model
 
 
 class Probe(torch.nn.Module):
@@ -77,6 +97,8 @@ class Probe(torch.nn.Module):
             return y
         if self.out == "tuple2":
             return y, (y * 2).unsqueeze(-1)
+        if self.out == "named2":
+            return Heads(profile=y, counts=(y * 2).unsqueeze(-1))
         return [y, y[:, :1] - 1, y.reshape(-1, 3, 1).repeat(1, 1, 2)]
 
 
@@ -122,7 +144,8 @@ def check_one(rec, model0, n, b, nargs, seed, as_tuple=False, layout="contiguous
         model.eval()
         model.training = True
     model.log = []
-    case = dict(fn="predict", n=n, batch_size=b, n_args=nargs, out=model.out, model=model.kind, mode_before=mode, layout=layout)
+    case = dict(fn="predict", n=n, batch_size=b, n_args=nargs, out=model.out, model=model.kind, mode_before=mode, layout=layout,
+                root_hooks=bool(getattr(model0, "hooked", False)))
     a_in = None if nargs == 0 else (tuple(args) if as_tuple else list(args))
     st, y = call(predict, model, X, args=a_in, batch_size=b, device="cpu")
     rec.case(1, int(b < n or nargs > 0))
@@ -212,6 +235,11 @@ def run_shard(sh, tier, seed):
         if n % 5 == 0:
             for b in (1, 3, n):
                 check_one(rec, model0, n, b, 2, seed, layout="strided")
+        if n % 4 == 1:
+            hooked = add_root_hooks(Probe(sh["model"], sh["out"], seed))
+            for b in (1, 2, n, n + 1):
+                for nargs in (0, 2):
+                    check_one(rec, hooked, n, b, nargs, seed)
     if sh["ns"][0] == 1:
         # sizes beyond 8-bit counters and around the default batch size of 32 (ids encoded in 5 positions: 1024 values)
         big = Probe(sh["model"], sh["out"], seed, L=5)
@@ -237,6 +265,8 @@ def replay(v):
     c = v["case"]
     rec = Recorder(PID, "replay")
     model0 = Probe(c["model"], c["out"], 0)
+    if c.get("root_hooks"):
+        add_root_hooks(model0)
     if "bad_arg" in c:
         for delta in (-1, 1, "one"):
             check_mismatch(rec, model0, c["n"], c["n_args"], c["bad_arg"], delta)
